@@ -106,7 +106,8 @@ type E<T> = Result<T, Status>;
 
 fn contains_call(e: &Expr) -> bool {
     match e {
-        Expr::Call(..) => true,
+        // anything written with call syntax, built-in or not
+        Expr::Call(..) | Expr::ChoiceCount | Expr::TurnsSince(_) | Expr::Turns => true,
         Expr::Bin(a, _, b) => contains_call(a) || contains_call(b),
         Expr::Not(a) | Expr::Neg(a) => contains_call(a),
         _ => false,
